@@ -91,6 +91,13 @@ func S1a(tier string, fees bool) *Scenario {
 			}
 		}
 	}
+	// creation messages that must be rejected (one cheap rejected op per state on a correct tree; if one
+	// of them is ever accepted, the histories behind it are explored like any other)
+	al.Creates = append(al.Creates,
+		Op{Kind: "create_fixed", Signer: "auc1", StartPrice: "3", Sell: "10acoin", PayDenom: "bcoin", StartK: 0, EndK: 2, Sched: []Sched{{K: 3, W: "0.5"}, {K: 3, W: "0.5"}}, Tag: "duplicate-release-time"},
+		Op{Kind: "create_fixed", Signer: "auc1", StartPrice: "3", Sell: "10acoin", PayDenom: "bcoin", StartK: 0, EndK: 2, Sched: []Sched{{K: 2, W: "1"}}, Tag: "release-at-end-time"},
+		Op{Kind: "create_fixed", Signer: "auc1", StartPrice: "3", Sell: "10acoin", PayDenom: "bcoin", StartK: 0, EndK: 2, Sched: []Sched{{K: 3, W: "0.5"}, {K: 4, W: "0.4"}}, Tag: "weights-below-one"},
+	)
 	return scenFrom("S1a-fixed-lifecycle-"+fn, cfg, nil, bud, al, nil)
 }
 
@@ -150,6 +157,10 @@ func S2a(tier string, fees bool) *Scenario {
 	}
 	al.Creates = append(al.Creates, Op{Kind: "create_batch", Signer: "auc1", StartPrice: "1", MinPrice: "0.5", Sell: "10acoin", PayDenom: "bcoin",
 		StartK: 1, EndK: 2, MaxExt: 1, Rate: "0.5"})
+	al.Creates = append(al.Creates,
+		Op{Kind: "create_batch", Signer: "auc1", StartPrice: "1", MinPrice: "0.5", Sell: "10acoin", PayDenom: "bcoin", StartK: 0, EndK: 2, MaxExt: 0, Rate: "0.5", Sched: []Sched{{K: 5, W: "0.5"}, {K: 5, W: "0.5"}}, Tag: "duplicate-release-time"},
+		Op{Kind: "create_batch", Signer: "auc1", StartPrice: "1", MinPrice: "0.5", Sell: "10acoin", PayDenom: "bcoin", StartK: 0, EndK: 2, MaxExt: 31, Rate: "0.5", Tag: "too-many-rounds"},
+	)
 	return scenFrom("S2a-batch-lifecycle-"+fn, cfg, nil, bud, al, nil)
 }
 
@@ -581,4 +592,30 @@ func S10(tier string, batch bool) *Scenario {
 		return inner(st, b)
 	}
 	return s
+}
+
+// S3e: a fixed-price auction with a LOWER id (whose accepted bids are flagged matched) next to a batch
+// auction with two extension rounds and a low rate: the sharpest setting for state that is restored or
+// derived per auction (last matched count) and for loops over "the bidder's bids" that must not stop at,
+// or count, another auction's records.
+func S3e(tier string) *Scenario {
+	cfg := world.Config{Balances: stdBalances(), Params: params("", "", 1)}
+	pre := []Op{
+		{Kind: "create_fixed", Signer: "auc1", StartPrice: "1", Sell: "10acoin", PayDenom: "bcoin", StartK: 0, EndK: 6},
+		{Kind: "create_batch", Signer: "auc2", StartPrice: "1", MinPrice: "0.5", Sell: "4acoin", PayDenom: "bcoin", StartK: 0, EndK: 2, MaxExt: 2, Rate: "0.25"},
+		{Kind: "add_allowed", AID: 0, Bidder: "bid1", Max: "3"},
+		{Kind: "add_allowed", AID: 1, Bidder: "bid1", Max: "4"},
+		{Kind: "add_allowed", AID: 1, Bidder: "bid2", Max: "4"},
+	}
+	al := &Alphabet{
+		Bidders: []string{"bid1", "bid2"}, AllowBidders: []string{"bid1"},
+		FixedAmts:   []string{"1", "2"},
+		BatchPrices: []string{"1", "2"}, ManyAmts: []string{"1"},
+		MaxK: 6, BlockStops: []int{2, 3, 4, 5},
+	}
+	bud := Budget{"bid": 4, "block": 4}
+	if tier == "thorough" {
+		bud = Budget{"bid": 5, "block": 4, "tick": 1}
+	}
+	return scenFrom("S3e-fixed-then-batch-extended", cfg, pre, bud, al, nil)
 }
